@@ -165,6 +165,34 @@ Example demo_remap :
   end.
 Proof. vm_compute. repeat split; reflexivity. Qed.
 
+(** * Routing of the copy requests
+
+    The default middleware sends one request per page piece to
+    GPUs[GetDeviceIDByPAddr(pAddr) - 1].  The model's page record has no device
+    field at all: whatever the page table entry says about its device (the
+    physical owner, as the allocator records it today — also for buffers
+    allocated while a unified device is selected or re-spread by Distribute /
+    Remap), the target of each request is the registered device whose address
+    range holds the translated address of the piece; the request carries that
+    address and the length of the piece; the host (device 0) is never a target. *)
+Theorem chunk_routed_to_frame_owner : forall lg pt devs addr n l rs,
+  pt_wf lg pt -> split_pages lg pt addr n = Ok l -> reqs_of devs l = Some rs ->
+  length rs = length l /\
+  forall k p, nth_error l k = Some p ->
+    exists id lo sz, nth_error rs k = Some (id, p_pa p, p_len p) /\ id <> 0 /\
+                     In (id, lo, sz) devs /\ lo <= p_pa p < lo + sz /\
+                     exists pg, pt (align lg (p_va p)) = Some pg /\
+                                p_pa p = pg_p pg + (p_va p - align lg (p_va p)).
+Proof.
+  intros lg pt devs addr n l rs Hw Hs Hr. destruct (reqs_of_spec devs l rs Hr) as [Hl Hn].
+  split; [exact Hl|]. intros k p Hk. destruct (Hn k p Hk) as (id & A & B & C).
+  destruct (device_of_range _ _ _ B) as (lo & sz & Hin & Hrange).
+  destruct (split_pages_exact lg pt addr n l Hw Hs) as [_ Hf]. rewrite Forall_forall in Hf.
+  destruct (Hf p (nth_error_In _ _ Hk)) as (_ & pg & Hpg & Hpa).
+  exists id, lo, sz. repeat split; auto; try lia. exists pg. auto.
+Qed.
+Print Assumptions chunk_routed_to_frame_owner.
+
 (** * The emulator's storage accessor *)
 
 Theorem accessor_rw_exact : forall lg pt addr len,
